@@ -7,7 +7,14 @@ for path in sys.argv[1:]:
     for l in open(path):
         l=l.strip()
         if not l.startswith('{'): continue
-        r=json.loads(l); n+=1; reasons[r['reason']]+=1; vt+=r['virtual_ns']; wall+=r['wall_us']
+        r=json.loads(l)
+        if r.get('agg'):
+            n+=r['runs']; vt+=r['virtual_ns']; wall+=r['wall_us']
+            for k,v in r['reasons'].items(): reasons[k]+=v
+            for k,v in (r.get('probes') or {}).items(): probes[k]+=v
+            for k,v in (r.get('faults') or {}).items(): faults[k]+=v
+            continue
+        n+=1; reasons[r['reason']]+=1; vt+=r['virtual_ns']; wall+=r['wall_us']
         for k,v in (r.get('probes') or {}).items(): probes[k]+=v
         for k,v in (r.get('faults') or {}).items(): faults[k]+=v
         for v in r.get('violations') or []:
